@@ -52,6 +52,20 @@ IsDecimal(s) ==
   LET u == Unsigned(s)  d == DotAt(u) IN
   IF d = 0 THEN DigitsOnly(u) /\ Len(u) <= 5
   ELSE DigitsOnly(SubSeq(u, 1, d - 1)) /\ DigitsOnly(SubSeq(u, d + 1, Len(u))) /\ d - 1 <= 5 /\ Len(u) - d <= 4
+\* scientific notation, the other usual spelling of a floating-point number: mantissa e [+-] digit, judged when the mantissa
+\* has at most 2 integer and 2 fraction digits and the exponent lies in -2..3 (so that the scaled value is exact and fits)
+EAt(s) == LET S == {i \in 1..Len(s) : s[i] = 101} IN IF S = {} THEN 0 ELSE CHOOSE i \in S : \A j \in S : i <= j
+SmallMantissa(m) ==
+  LET u == Unsigned(m)  d == DotAt(u) IN
+  IF d = 0 THEN DigitsOnly(u) /\ Len(u) <= 2
+  ELSE DigitsOnly(SubSeq(u, 1, d - 1)) /\ DigitsOnly(SubSeq(u, d + 1, Len(u))) /\ d - 1 <= 2 /\ Len(u) - d <= 2
+ExpOf(x) == IF Len(x) = 1 /\ IsDigitC(x[1]) THEN x[1] - 48
+            ELSE IF Len(x) = 2 /\ x[1] = 43 /\ IsDigitC(x[2]) THEN x[2] - 48
+            ELSE IF Len(x) = 2 /\ x[1] = 45 /\ IsDigitC(x[2]) THEN -(x[2] - 48)
+            ELSE 99
+IsSci(s) ==
+  LET e == EAt(s) IN
+  e > 1 /\ e < Len(s) /\ SmallMantissa(SubSeq(s, 1, e - 1)) /\ ExpOf(SubSeq(s, e + 1, Len(s))) \in -2..3
 RECURSIVE Pad4Aux(_)
 Pad4Aux(f) == IF Len(f) >= 4 THEN f ELSE Pad4Aux(Append(f, 48))
 NumVal(s) ==
@@ -59,20 +73,26 @@ NumVal(s) ==
       mag == IF d = 0 THEN DecVal(u, 0) * 10000
              ELSE DecVal(SubSeq(u, 1, d - 1), 0) * 10000 + DecVal(Pad4Aux(SubSeq(u, d + 1, Len(u))), 0)
   IN IF s # <<>> /\ s[1] = 45 THEN -mag ELSE mag
+Pow10(k) == CASE k = 0 -> 1 [] k = 1 -> 10 [] k = 2 -> 100 [] k = 3 -> 1000
+SciVal(s) ==
+  LET e == EAt(s)  m == NumVal(SubSeq(s, 1, e - 1))  x == ExpOf(SubSeq(s, e + 1, Len(s))) IN
+  IF x >= 0 THEN m * Pow10(x) ELSE m \div Pow10(-x)
+IsNumber(s) == IsDecimal(s) \/ IsSci(s)
+ValueOf(s) == IF IsSci(s) THEN SciVal(s) ELSE NumVal(s)
 \* lexicographic order of code point sequences (= byte order of UTF-8)
 RECURSIVE LexLt(_, _)
 LexLt(a, b) == IF b = <<>> THEN FALSE ELSE IF a = <<>> THEN TRUE
                ELSE IF a[1] # b[1] THEN a[1] < b[1] ELSE LexLt(Tail(a), Tail(b))
 \* the three-way comparison of two operands the specification decides: "lt" | "eq" | "gt", or "free" when the
-\* documentation leaves the numeric-or-text choice open (exponents, hex, Inf, NaN, underscores, non-ASCII case)
+\* documentation leaves the numeric-or-text choice open (hex, Inf, NaN, underscores, large or unusual exponents, non-ASCII case)
 LooksNumericButUndocumented(s) ==
-  LET n == Norm(s) IN ~IsDecimal(n) /\ n # <<>> /\ (IsDigitC(n[1]) \/ n[1] \in {43, 45, 46} \/ n \in {<<105, 110, 102>>, <<110, 97, 110>>, <<105, 110, 102, 105, 110, 105, 116, 121>>})
+  LET n == Norm(s) IN ~IsNumber(n) /\ n # <<>> /\ (IsDigitC(n[1]) \/ n[1] \in {43, 45, 46} \/ n \in {<<105, 110, 102>>, <<110, 97, 110>>, <<105, 110, 102, 105, 110, 105, 116, 121>>})
 Compare3(l, r) ==
   LET a == Norm(l)  b == Norm(r) IN
   IF ~Ascii(l) \/ ~Ascii(r) \/ LooksNumericButUndocumented(l) \/ LooksNumericButUndocumented(r) THEN "free"
   \* a number with white space around it: "represents a numeric value" is not settled by the documentation
-  ELSE IF (IsDecimal(a) /\ a # [k \in 1..Len(l) |-> LowerC(l[k])]) \/ (IsDecimal(b) /\ b # [k \in 1..Len(r) |-> LowerC(r[k])]) THEN "free"
-  ELSE IF IsDecimal(a) /\ IsDecimal(b) THEN (IF NumVal(a) < NumVal(b) THEN "lt" ELSE IF NumVal(a) = NumVal(b) THEN "eq" ELSE "gt")
+  ELSE IF (IsNumber(a) /\ a # [k \in 1..Len(l) |-> LowerC(l[k])]) \/ (IsNumber(b) /\ b # [k \in 1..Len(r) |-> LowerC(r[k])]) THEN "free"
+  ELSE IF IsNumber(a) /\ IsNumber(b) THEN (IF ValueOf(a) < ValueOf(b) THEN "lt" ELSE IF ValueOf(a) = ValueOf(b) THEN "eq" ELSE "gt")
   ELSE IF a = b THEN "eq" ELSE IF LexLt(a, b) THEN "lt" ELSE "gt"
 OpHolds(op, c3) ==
   CASE op = "=" -> c3 = "eq" [] op = "!=" -> c3 # "eq" [] op = "<" -> c3 = "lt" [] op = ">" -> c3 = "gt"
